@@ -80,6 +80,8 @@ class World(object):
         self.starter = None
         self.errors = []
         self.trace = []
+        self.conns = []
+        self.env_steps = 0
         if conn_present:
             env.conn = FakeConn(self)
         if starter_alive:
@@ -129,6 +131,7 @@ class FakeConn(object):
     def __init__(self, w):
         self.w = w
         self.sent, self.closed = [], False
+        w.conns.append(self)
 
     def send_bytes(self, b):
         self.sent.append(b)
@@ -161,8 +164,7 @@ class FakeThread(object):
         return True
 
 
-@harness(['C16'], 'supp.remote.Environment.{prepare,run,_threaded_run,_call}[start-up under interference]')
-def startup_interleavings(run):
+def startup_interleavings(run, only=None):
     """for every initial state (starter running or not, connection present or not) and every interleaving, at source-line granularity,
     of environment transitions with the real prepare() / run() / _call(): at most ONE launch in total, the thread observes no exception
     caused by the handshake, and after run() returns a connection exists unless the launch itself failed"""
@@ -171,7 +173,7 @@ def startup_interleavings(run):
               'source-line granularity (the property\'s own quantifier)')
     run.concretise = lambda model, ob: {'input': 'prepare() racing with the first call: starter clears prepare_thread between `if` and `.join()`',
                                         'script': RACE_REPLAY % {'repo': core.REPO}}
-    codes = {R.Environment.prepare.__code__, R.Environment.run.__code__, R.Environment._call.__code__}
+    codes = {R.Environment.prepare.__code__, R.Environment.run.__code__, R.Environment._call.__code__, R.Environment.close.__code__}
     holder = {}
 
     def fake_run(self):
@@ -189,6 +191,10 @@ def startup_interleavings(run):
                     w = holder['w']
                     # any number of enabled environment transitions before this line
                     for _ in range(2):
+                        # at most 4 environment events per run: two other threads performing one operation each, plus the
+                        # completion of at most two starter threads (the property quantifies over up to three threads)
+                        if w.env_steps >= 4:
+                            break
                         ts = w.enabled(w.env.prepare_lock.locked())
                         if not ts:
                             break
@@ -196,12 +202,36 @@ def startup_interleavings(run):
                         if c == 0:
                             break
                         w.apply(ts[c - 1])
+                        w.env_steps += 1
                 return local
             return local
         return None
 
-    scenarios = [('prepare', lambda e: e.prepare()), ('run', lambda e: e.run()), ('_call', lambda e: e._call('assist', 1))]
+    def seq(*ops):
+        def run_ops(e):
+            w = holder['w']
+            r = None
+            for op in ops:
+                if op == 'close':
+                    had = hasattr(e, 'conn')
+                    e.close()
+                    if had:
+                        w.closed_sessions = getattr(w, 'closed_sessions', 0) + 1
+                elif op == 'prepare':
+                    e.prepare()
+                elif op == 'run':
+                    e.run()
+                else:
+                    r = e._call('assist', 1)
+            return r
+        return run_ops
+    scenarios = [('prepare', seq('prepare')), ('run', seq('run')), ('_call', seq('_call')),
+                 ('prepare;close;_call', seq('prepare', 'close', '_call')), ('prepare;close;prepare', seq('prepare', 'close', 'prepare')),
+                 ('_call;close;_call', seq('_call', 'close', '_call')), ('close;_call', seq('close', '_call'))]
+    run.path_cap = 400000
     for mname, call in scenarios:
+        if only is not None and mname not in only:
+            continue
         for starter_alive in (False, True):
             for conn_present in (False, True):
                 if starter_alive and conn_present:
@@ -229,9 +259,11 @@ def startup_interleavings(run):
                         return
                     # a starter started by this thread's prepare() will run _threaded_run later: account for its launch
                     pending = 1 if (w.starter is not None and w.starter.alive and not w.starter.launched) else 0
-                    prove('at-most-one-launch', w.launches + pending - w.failed <= 1,
-                          clause='one server process is launched (a launch is retried only after a failed one) [launches=%d pending=%d failed=%d after: %s]' % (w.launches, pending, w.failed, sched), path=p)
-                    if mname in ('run', '_call'):
+                    closed = sum(1 for c in w.conns if c.closed)
+                    prove('at-most-one-launch', w.launches + pending - w.failed <= 1 + closed,
+                          clause='one server process per session (a launch is retried only after a failed one; a new one only after close() ended '
+                                 'a session) [launches=%d pending=%d failed=%d sessions-closed=%d after: %s]' % (w.launches, pending, w.failed, closed, sched), path=p)
+                    if mname in ('run', '_call') or mname.endswith('_call'):
                         prove('connected-after-run', hasattr(w.env, 'conn') or w.launch_failed,
                               clause='after run() a connection exists (unless the launch failed) [%s]' % sched, path=p)
                     if mname == '_call' and hasattr(w.env, 'conn'):
@@ -317,3 +349,16 @@ def close_and_call(run):
                   clause='one request (name, args, kwargs); result returned / server message raised', path=path)
         run.case = None
     core.explore(lambda: None, lambda p, out: go(p))
+
+
+def _mk(group, names):
+    def h(run):
+        return startup_interleavings(run, only=names)
+    h.__name__ = 'startup_' + group
+    h.__doc__ = startup_interleavings.__doc__ + '  [operation sequences of this thread: %s]' % ', '.join(names)
+    return h
+
+
+for _g, _names in (('single-operations', ('prepare', 'run', '_call')), ('prepare-close-call', ('prepare;close;_call',)),
+                   ('prepare-close-prepare', ('prepare;close;prepare',)), ('call-close-call', ('_call;close;_call', 'close;_call'))):
+    harness(['C16'], 'supp.remote.Environment.{prepare,run,_threaded_run,_call,close}[start-up under interference: %s]' % _g)(_mk(_g, _names))
